@@ -96,7 +96,19 @@ def run(chk: Check):
             y = prev[2]                        # the trend returned by the previous call, filtered once more with the same lambda
             shape = "previous_trend"
             chk.count("hp:previous_trend_filtered_again")
-        case = {"case": {"kind": "hp", "n": n, "shape": shape, "lambda": lam}}
+        lam_arg = lam
+        if it % 4 == 2:
+            # the smoothing parameter as a caller may hold it: an element of a float32 / float16 array of candidate values, a numpy integer (a positive lambda all the same)
+            kind_l = ["float32", "float16", "int64", "int16", "float32"][(it // 4) % 5]
+            if kind_l in ("int64", "int16"):
+                lam_arg = getattr(np, kind_l)(max(1, min(int(lam), 30000)))
+            elif kind_l == "float16":
+                lam_arg = np.float16(min(lam, 6.0e4))
+            else:
+                lam_arg = np.float32(lam)
+            lam = float(lam_arg)
+            chk.count("hp:lambda_type:" + kind_l)
+        case = {"case": {"kind": "hp", "n": n, "shape": shape, "lambda": lam, "lambda_type": type(lam_arg).__name__}}
         y_in = y if shape == "previous_trend" else y.copy()
         y = y.copy()
         case["case"]["earlier_calls_n_lambda"] = list(calls_log[-12:])
@@ -104,7 +116,7 @@ def run(chk: Check):
         try:
             with warnings.catch_warnings():
                 warnings.simplefilter("ignore")
-                cycle, trend = hp_filter(y_in, lam)
+                cycle, trend = hp_filter(y_in, lam_arg)
         except Exception as e:  # noqa: BLE001  (no cycle and trend at all on an admissible input: the property fails on this input)
             chk.fail(f"hp_filter raised {type(e).__name__}: {str(e)[:80]} on a finite series of length {n} >= 3 with lambda {lam!r} > 0 "
                      f"(lengths and lambdas of the calls made before in this process: {calls_log[-7:-1]})", case)
